@@ -30,7 +30,7 @@ FEAS_TOL = math.sqrt(np.finfo(float).eps)
 
 
 def budget(tier):
-    return 1600 if tier == "quick" else 60000
+    return 3000 if tier == "quick" else 60000
 
 
 def fl(lo, hi):
@@ -86,7 +86,7 @@ def instances(draw):
         # (narrow boxes make cobyqa reduce the initial radius below its default)
         sp["gap_lo"] = [draw(st.one_of(fl(0.3, 3.0), fl(0.3, 1.0), st.just("inf"))) for _ in range(n)]
         sp["gap_hi"] = [draw(st.one_of(fl(0.3, 3.0), fl(0.3, 1.0), st.just("inf"))) for _ in range(n)]
-        sp["x0_on_bound"] = draw(st.booleans())
+        sp["x0_on_bound"] = draw(st.integers(0, 2)) == 0
     elif fam == "lineq":
         m = draw(st.integers(1, n - 1))
         sp["A"] = [[draw(st.integers(-2, 2)) for _ in range(n)] for _ in range(m)]
@@ -356,22 +356,23 @@ def sig_short_step_infeasible(spec, fail):
 
 def sig_geometry_cycle(spec, fail):
     """KF-C04-4: the minimiser has been found (1e-6) and the resolution has reached radius_final, but the run does
-    not stop: the interpolation set has become singular (two interpolation points coincide - a geometry step
-    limited by the bounds or by the constraints lands on an existing point), every update reports an
-    ill-conditioned system, which forces another geometry step, and so on until maxfev (status 5).  The base point
-    is where it should be (within 10 radii of the best point), which tells this cycle from one caused by a base
-    point left behind."""
+    not stop: a rejected trust-region step alternates with a geometry step (nine iterations in ten at least) until
+    maxfev (status 5).  Two variants have been seen: the interpolation set has become singular (two points
+    coincide - a geometry step limited by the bounds or by the constraints lands on an existing point - and every
+    update reports an ill-conditioned system, which forces the next geometry step), or an interpolation point
+    keeps being re-created at twice the resolution from the best point, just beyond the distance test that sends
+    the solver to the geometry branch.  The base point is where it should be (within 10 radii of the best point),
+    which tells these cycles from one caused by a base point left behind."""
     d = fail.data
     it = d.get("final_iterations_at_constant_resolution", 0)
     upd = d.get("final_updates", 0)
     bd = d.get("final_max_base_distance_over_radius")
     return (fail.clause.startswith("C04.status.") and d.get("status") == 5 and d.get("err", 1) <= 1e-6
             and it >= 100 and d.get("final_geometry_steps", 0) >= 0.9 * it
-            and upd >= 100 and d.get("final_ill_conditioned_updates", 0) >= 0.9 * upd
-            and bd is not None and bd < 10.0)
+            and upd >= 100 and bd is not None and bd < 10.0)
 
 
 SIGNATURES = {
-    "status5_singular_set_forces_geometry_steps_at_final_resolution": sig_geometry_cycle,
+    "status5_rejected_step_and_geometry_step_alternate_at_final_resolution": sig_geometry_cycle,
     "lineq_status0_short_steps_never_evaluated_equality_violation_above_tol": sig_short_step_infeasible,
 }
